@@ -472,25 +472,46 @@ func mutations() []mutation {
 	}
 }
 
+// family groups the mutations of class toplevel by the kind of structural change; it is part of the
+// finding key (leak:<route>:toplevel:<family>) so that one known structural leak on a route (e.g.
+// unset renaming shared cells) does not mask another (e.g. appends reaching the original).
+func family(name string) string {
+	switch name {
+	case "set-first", "set-strkey", "set-newint":
+		return "store"
+	case "append", "m-push", "f-push", "m-unshift":
+		return "append"
+	case "unset-first":
+		return "unset"
+	case "m-pop", "f-pop", "m-shift", "f-shift":
+		return "remove"
+	case "m-sort", "f-sort", "m-reverse":
+		return "sort"
+	case "m-splice":
+		return "splice"
+	}
+	return "other"
+}
+
 // classify returns the mutation class for the finding key: which part of the value the write touches.
 //
-//	interior — the write lands inside something the shallow top-level slot list points to: an
-//	           existing top-level slot gets a new value (key sequence unchanged) or the write goes
-//	           through an inner array
-//	toplevel — the top-level slot list itself changes: insert / delete / renumber / permute in place
+//	interior          — the write lands inside something the shallow top-level slot list points to:
+//	                    an existing top-level slot gets a new value (key sequence unchanged) or the
+//	                    write goes through an inner array
+//	toplevel:<family> — the top-level slot list itself changes: insert / delete / renumber / permute
 func classify(m mutation, before *parr) string {
 	switch m.class {
 	case "nested", "cell":
 		return "interior"
 	case "order", "struct":
-		return "toplevel"
+		return "toplevel:" + family(m.name)
 	}
 	after := before.clone()
 	if ok := m.apply(after); !ok {
-		return "toplevel"
+		return "toplevel:" + family(m.name)
 	}
 	if after.keySig() == before.keySig() {
 		return "interior"
 	}
-	return "toplevel"
+	return "toplevel:" + family(m.name)
 }
